@@ -17,8 +17,13 @@ def make_runs(run):
     runs = []
     k = 0
     while len(runs) < n and k < 30 * n:
-        p = RG.make_problem(run.rng, k, repl_mode="identical", flavor=["mixed", "corners", "antiparallel", "stretched"][k % 4], with_terms=True, coeffs=(k % 2 == 0),
-                            cellkind=({1: "rot-ortho", 4: "mono-yz", 7: "rot-ortho"}.get(k % 9)))
+        if k % 5 == 2:
+            # mirror-symmetric, non-planar patterns far from the origin of a large cell (with their mirror-image decoys)
+            p = RG.make_problem(run.rng, k, repl_mode="identical", flavor="decoys", with_terms=True, coeffs=(k % 2 == 0),
+                                pattern=["mirrorsym5", "ch2f2", "chiral5", "weakchiral4"][(k // 5) % 4], big=True)
+        else:
+            p = RG.make_problem(run.rng, k, repl_mode="identical", flavor=["mixed", "corners", "antiparallel", "stretched"][k % 4], with_terms=True, coeffs=(k % 2 == 0),
+                                cellkind=({1: "rot-ortho", 4: "mono-yz", 7: "rot-ortho"}.get(k % 9)))
         k += 1
         if p is None:
             continue
@@ -187,6 +192,9 @@ def pattern_roundtrip(run, p, seed):
         again = find_pattern_in_structure(s1, PA, atol=float(p["atol"]))
         s2 = replace_pattern_in_structure(s1, PB, PA, atol=float(p["atol"]))
         left = [e for e in s2.elements if e == "Hf"]
+        # only half of the occurrences substituted, then all of the substituted ones substituted back
+        h1 = replace_pattern_in_structure(St, PA, PB, atol=float(p["atol"]), replace_fraction=0.5)
+        h2 = replace_pattern_in_structure(h1, PB, PA, atol=float(p["atol"]))
     run.cov["evaluations"] += 2
     run.count("kind=pattern-A-B-A")
     if n0 == 0:
@@ -198,6 +206,9 @@ def pattern_roundtrip(run, p, seed):
     msg = same_crystal(St, s2, np.array(S["cell"], float) / AIO.G, 2 * float(p["atol"]) + 1e-6)
     if msg:
         bad.append("A -> B -> A (multi-atom pattern) does not restore the structure modulo the lattice within the tolerance: " + msg)
+    msg = same_crystal(St, h2, np.array(S["cell"], float) / AIO.G, 2 * float(p["atol"]) + 1e-6)
+    if msg:
+        bad.append("substituting half of the occurrences and substituting them back does not restore the structure modulo the lattice within the tolerance: " + msg)
     return bad
 
 
